@@ -36,7 +36,7 @@ import re as _re
 hands = []
 for l in add:
     if l.strip().startswith('("'):
-        for m in _re.finditer(r'\("(\w+)", (\w+)\)', l):
+        for m in _re.finditer(r'\("(\w+)", ([\w.]+)\)', l):
             if '("%s",' % m.group(1) not in s:
                 hands.append(m.group(0))
 if imps:
